@@ -221,7 +221,7 @@ end
 
 /-- TOKEN level `wkt`: the same handlers over the tree instead of over the text -/
 def parseWktToks {α} [Num α] (sep : Str) (tree : WArg) : Except Err (SR α) :=
-  let (sr, e) := parseWKTSectionG (treeOps sep) (tree.depth + 1) [] [tree] newSR
+  let (sr, e) := parseWKTSectionG (treeOps sep) (tree.depth + 4) [] [tree] newSR
   let sr := wktFinish sr
   match e with
   | some e => .error e
